@@ -428,6 +428,37 @@ Theorem c09_summary_hypotheses_hold_in_every_interleaving :
 Proof. exact concurrent_summary_hyps. Qed.
 Print Assumptions c09_summary_hypotheses_hold_in_every_interleaving.
 
+(* Concurrent calls: in every interleaving, from any state, every checkpoint frame appended during the race references a
+   readable summary that is `cut_read K snap cur p` for the frame's own cut p, the snapshot of the job that wrote it and
+   a moment `cur` of the race (`read_at`: snap a prefix of cur's stream, that a prefix of the final stream) … *)
+Theorem c09_concurrent_summaries_are_cut_reads :
+  forall (K : consts) (s : st) (calls : list aspec) (s' : st) (acts' : list astate),
+  sys_steps K (s, map start_of calls) (s', acts') ->
+  exists new, log s' = log s ++ new /\ fed_ckpts K s' new.
+Proof. exact concurrent_summaries_fed. Qed.
+Print Assumptions c09_concurrent_summaries_are_cut_reads.
+
+(* … and started from any state the modelled operations reach on a fresh thread, (snap, cur) meet the hypotheses of
+   c09_summary_feeds: base, note, message slice and coverage of every summary written during the race are what that
+   theorem says of (snap, cur) *)
+Theorem c09_concurrent_summary_feeds :
+  forall (K : consts) (ops : list op) (calls : list aspec) (s' : st) (acts' : list astate),
+  sys_steps K (fst (run_ops K st0 ops []), map start_of calls) (s', acts') ->
+  exists new, log s' = log (fst (run_ops K st0 ops [])) ++ new
+    /\ forall e r a ts tm, In e new -> ebody e = BCkpt r a ts (Some tm) ->
+       exists snap cur p v,
+         art_read s' a = Some v /\ cut_read K snap cur p = Ok v /\ pl_seq p = ts /\ pl_mid p = tm
+         /\ is_prefix snap (log cur) /\ is_prefix (log cur) (log s')
+         /\ msorted snap /\ Forall (fun c => ck_to c <> 0) (ckpts snap).
+Proof. exact concurrent_summary_feeds. Qed.
+Print Assumptions c09_concurrent_summary_feeds.
+
+Example c09_demo_concurrent_summaries :
+  sys_steps real_consts (fst (run_ops real_consts st0 [OMsg 0 1; OMsg 1 2] []), map start_of [SCall race_call; SCall race_call])
+            (run_sched real_consts race_state [AStart race_call; AStart race_call] [0; 1; 0; 1; 0; 0; 0; 0; 1; 1; 1; 1])
+  /\ map ck_to (ckpts (log race_end)) = [2; 2].
+Proof. exact race_is_interleaving. Qed.
+
 (* What the summary records of its delta and the correspondence reads back from the artifact: `- delta_actors:` is the
    head (6 entries) of the per-actor message counts of the slice sorted most-frequent-first, ties by actor — every entry
    (a, c) says that exactly c > 0 messages of the slice were written by a; `## Recent Delta Highlights` is the slice's
